@@ -415,14 +415,16 @@ structure TaperData (K : Type) where
 
 inductive Call (K : Type)
   /-- `cls(Empirical1D, points=x, lookup_table=y, keep_neg=…, meta=d)` with caller-owned `x`, `y`, `d`;
+  `zi`: the keywords `z=…, z_type=…` of a `SourceSpectrum` (the constructor assigns `z_type`, then `z`,
+  before it builds the model);
   `fillZero`: the keyword `fill_value=0` is given as well (no extrapolation) -/
   | newEmpirical (kind : Kind) (x y : Nat) (xconv yconv : List K) (keepNeg : Bool) (md : Option Nat)
-      (fillZero : Bool)
+      (fillZero : Bool) (zi : Option (K × ZType))
   /-- `cls(Box1D | ConstFlux1D | Gaussian1D | …, parameters)` -/
-  | newAnalytic (kind : Kind) (l : Leaf K)
+  | newAnalytic (kind : Kind) (l : Leaf K) (zi : Option (K × ZType))
   /-- `SourceSpectrum(BlackBody1D, temperature=T)`; `label`: the text `'bb({0})'.format(T)` the model
   class stores as `meta['expr']` -/
-  | newBlackBody (temp : K) (label : String)
+  | newBlackBody (temp : K) (label : String) (zi : Option (K × ZType))
   /-- `obj(w)` -/
   | sample (o : Nat) (w : Nat) (conv : List K)
   /-- `a <op> b` (left operand not an `Observation`) -/
@@ -489,6 +491,14 @@ def resolveWaves (h : Heap K) (t : HTree K) : WaveArg K → Except Err Unit
 def freshObj (kind : Kind) (t : HTree K) (m : Meta) : Obj K :=
   { kind := kind, tree := t, zs := ZState.init 0 .wavelengthOnly, md := m }
 
+/-- a new object whose constructor was given `z=`, `z_type=` (honoured by `SourceSpectrum` only) -/
+def freshObjZ (kind : Kind) (t : HTree K) (m : Meta) (zi : Option (K × ZType)) : Obj K :=
+  { kind := kind, tree := t,
+    zs := (match kind, zi with
+      | .source, some (z, zt) => ZState.init z zt
+      | _, _ => ZState.init 0 .wavelengthOnly),
+    md := m }
+
 def negWarning (b : Bool) : Dict := if b then [("NegativeFlux", libText)] else []
 
 /-- `Empirical1D.__init__` + `BaseSpectrum.__init__` on caller-owned arrays (models.py:336-404).
@@ -499,7 +509,8 @@ internal unit (as found); the repaired code copies `y` first when something has 
 A one-point table then fails in `is_tapered` (`[::size-1]`, step 0 → `ValueError`) — after the
 store. -/
 def newEmpirical (fx : Fixes) (h : Heap K) (kind : Kind) (x y : Nat) (xconv yconv : List K)
-    (keepNeg : Bool) (md : Option Nat) (fillZero : Bool) : List (Effect K) × Outcome K :=
+    (keepNeg : Bool) (md : Option Nat) (fillZero : Bool) (zi : Option (K × ZType)) :
+    List (Effect K) × Outcome K :=
   match h.arrays[x]?, h.arrays[y]? with
   | some cx, some cy =>
     let xd := cellData cx xconv
@@ -533,7 +544,7 @@ def newEmpirical (fx : Fixes) (h : Heap K) (kind : Kind) (x y : Nat) (xconv ycon
     let entries : Dict := match md with
       | some d => (h.dicts[d]?).getD []
       | none => []
-    let ob := freshObj kind (.tab h.tables.length) ⟨negWarning doClip, entries⟩
+    let ob := freshObjZ kind (.tab h.tables.length) ⟨negWarning doClip, entries⟩ zi
     (ex ++ ey ++ [.allocTable tcell, .allocObj ob], .ok (.obj h.objs.length))
   | _, _ => ([], .err .lookupError)
 
@@ -892,10 +903,11 @@ def sampleCall (fx : Fixes) (env : HEnv K) (h : Heap K) (o w : Nat) (conv : List
 
 /-- **the effects of a call, computed from the pre-state**, and its outcome -/
 def effects (fx : Fixes) (env : HEnv K) (h : Heap K) : Call K → List (Effect K) × Outcome K
-  | .newEmpirical kind x y xc yc keep md f0 => newEmpirical fx h kind x y xc yc keep md f0
-  | .newAnalytic kind l => ([.allocObj (freshObj kind (.ana l) Meta.empty)], .ok (.obj h.objs.length))
-  | .newBlackBody temp label =>
-      ([.allocObj (freshObj .source (.bb temp) ⟨[], [("expr", label)]⟩)], .ok (.obj h.objs.length))
+  | .newEmpirical kind x y xc yc keep md f0 zi => newEmpirical fx h kind x y xc yc keep md f0 zi
+  | .newAnalytic kind l zi =>
+      ([.allocObj (freshObjZ kind (.ana l) Meta.empty zi)], .ok (.obj h.objs.length))
+  | .newBlackBody temp label zi =>
+      ([.allocObj (freshObjZ .source (.bb temp) ⟨[], [("expr", label)]⟩ zi)], .ok (.obj h.objs.length))
   | .sample o w conv => sampleCall fx env h o w conv
   | .arith op a b => arith h op a b
   | .rmul v a => arith h .mul a (.real v)
@@ -966,7 +978,7 @@ def errLocs (fx : Fixes) (h : Heap K) (o : Nat) : List Loc :=
 /-- **the undocumented writes** of the code selected by `fx` (empty for `Fixes.repaired`):
 the caller's `lookup_table` buffer, the caller's `ext_header`, `np.geterr()` -/
 def hidden (fx : Fixes) (h : Heap K) : Call K → List Loc
-  | .newEmpirical _ _ y _ _ keep _ _ =>
+  | .newEmpirical _ _ y _ _ keep _ _ _ =>
       if !fx.copyBeforeClip && !keep then
         match h.arrays[y]? with
         | some cy => if cy.container.aliased && cy.data.any (fun v => decide (v < 0)) then [.arr y] else []
